@@ -3,11 +3,13 @@ package c40
 import (
 	"bytes"
 	"fmt"
+	"hash/fnv"
 	"sort"
 	"strings"
 	"sync"
 	"testing"
 
+	"google.golang.org/protobuf/encoding/prototext"
 	"google.golang.org/protobuf/proto"
 	"google.golang.org/protobuf/types/descriptorpb"
 	"google.golang.org/protobuf/types/gofeaturespb"
@@ -196,6 +198,24 @@ type outcome struct {
 	raw    []byte
 }
 
+var (
+	lastMu  sync.Mutex
+	lastReq []byte
+	lastOut outcome
+)
+
+func rememberOutcome(rb []byte, o outcome) {
+	lastMu.Lock()
+	lastReq, lastOut = rb, o
+	lastMu.Unlock()
+}
+
+func lastOutcome(rb []byte) (outcome, bool) {
+	lastMu.Lock()
+	defer lastMu.Unlock()
+	return lastOut, lastReq != nil && bytes.Equal(lastReq, rb)
+}
+
 func runInProcess(rb []byte) outcome {
 	out, err := gencode.GenerateBytes(rb)
 	if err != nil {
@@ -208,6 +228,35 @@ func describeDiff(a, b []byte) string {
 	ra, rb := &pluginpb.CodeGeneratorResponse{}, &pluginpb.CodeGeneratorResponse{}
 	if proto.Unmarshal(a, ra) != nil || proto.Unmarshal(b, rb) != nil {
 		return fmt.Sprintf("responses of %d and %d bytes (unparsable)", len(a), len(b))
+	}
+	return describeRespDiff(ra, rb, true)
+}
+
+// describeCrossBinaryDiff compares the responses of two different binaries: like describeDiff, but
+// *.meta files (prototext) are compared as messages.
+func describeCrossBinaryDiff(a, b []byte) string {
+	ra, rb := &pluginpb.CodeGeneratorResponse{}, &pluginpb.CodeGeneratorResponse{}
+	if proto.Unmarshal(a, ra) != nil || proto.Unmarshal(b, rb) != nil {
+		return fmt.Sprintf("responses of %d and %d bytes (unparsable)", len(a), len(b))
+	}
+	if len(ra.GetFile()) == len(rb.GetFile()) {
+		for i, fa := range ra.File {
+			fb := rb.File[i]
+			if fa.GetName() != fb.GetName() || !strings.HasSuffix(fa.GetName(), ".meta") || fa.GetContent() == fb.GetContent() {
+				continue
+			}
+			ia, ib := &descriptorpb.GeneratedCodeInfo{}, &descriptorpb.GeneratedCodeInfo{}
+			if err := prototext.Unmarshal([]byte(fa.GetContent()), ia); err != nil {
+				return fmt.Sprintf("%s is not a GeneratedCodeInfo in text format: %v", fa.GetName(), err)
+			}
+			if err := prototext.Unmarshal([]byte(fb.GetContent()), ib); err != nil {
+				return fmt.Sprintf("%s is not a GeneratedCodeInfo in text format: %v", fa.GetName(), err)
+			}
+			if !proto.Equal(ia, ib) {
+				return fmt.Sprintf("GeneratedCodeInfo in %s differs", fa.GetName())
+			}
+			fb.Content = fa.Content
+		}
 	}
 	return describeRespDiff(ra, rb, true)
 }
@@ -290,7 +339,12 @@ const (
 	pluginRuns    = 3
 )
 
-func checkGen(c genCase) error {
+func checkGen(c genCase) error { return checkGenX(c, true) }
+
+// checkGenNoExclusion is checkGen without the known-finding exclusions (for witness tests).
+func checkGenNoExclusion(c genCase) error { return checkGenX(c, false) }
+
+func checkGenX(c genCase, exclude bool) error {
 	if ext := gencode.ExtensionsLinked(); len(ext) != 1 {
 		return fmt.Errorf("harness: this binary links extension types the plugin does not: %v", ext)
 	}
@@ -305,6 +359,7 @@ func checkGen(c genCase) error {
 
 	// (1) repeated in-process runs (fresh protogen.Plugin each; Go randomises every map iteration)
 	first := runInProcess(rb)
+	rememberOutcome(rb, first)
 	for i := 1; i < inProcessRuns; i++ {
 		o := runInProcess(rb)
 		if (o.newErr == "") != (first.newErr == "") {
@@ -321,6 +376,7 @@ func checkGen(c genCase) error {
 		if err != nil {
 			return fmt.Errorf("harness: %v", err)
 		}
+		var firstPlugin []byte
 		for i := 0; i < pluginRuns; i++ {
 			so, se, err := gencode.RunPlugin(bin, rb)
 			if first.newErr != "" {
@@ -335,8 +391,20 @@ func checkGen(c genCase) error {
 			if err != nil {
 				return fmt.Errorf("plugin process run %d failed (%v: %.300s) but in-process generation succeeds", i+1, err, se)
 			}
-			if !bytes.Equal(so, first.raw) {
-				return fmt.Errorf("plugin process run %d gives a different CodeGeneratorResponse than the in-process run: %s", i+1, describeDiff(first.raw, so))
+			if i == 0 {
+				firstPlugin = so
+				// The test binary and the plugin are different binaries: annotate_code's .meta files are
+				// prototext, whose whitespace is deliberately keyed to the binary (internal/detrand), so
+				// those are compared as GeneratedCodeInfo messages; everything else byte for byte.
+				if !bytes.Equal(so, first.raw) {
+					if d := describeCrossBinaryDiff(first.raw, so); d != "" {
+						return fmt.Errorf("plugin process run 1 gives a different CodeGeneratorResponse than the in-process run: %s", d)
+					}
+				}
+				continue
+			}
+			if !bytes.Equal(so, firstPlugin) {
+				return fmt.Errorf("plugin process run %d gives a different CodeGeneratorResponse than plugin process run 1: %s", i+1, describeDiff(firstPlugin, so))
 			}
 		}
 	}
@@ -366,7 +434,7 @@ func checkGen(c genCase) error {
 			return fmt.Errorf("%s: response does not parse: %v", what, err)
 		}
 		if d := describeRespDiff(base, vr, false); d != "" {
-			if isHybridPublicImport(c, protoFiles, toGen, base, vr) && pbt.ExcludeKnown(kfHybridPublic) {
+			if exclude && isHybridPublicImport(c, protoFiles, toGen, base, vr) && pbt.ExcludeKnown(kfHybridPublic) {
 				return nil
 			}
 			return fmt.Errorf("%s changes the generated files: %s", what, d)
@@ -555,7 +623,7 @@ func drawPrio(t *rapid.T, n int, label string) []int {
 }
 
 // drawParams draws the generator parameter string for a request over the given files.
-func drawParams(t *rapid.T, files []*fdp, needM map[string]bool, modulePrefix string) string {
+func drawParams(t *rapid.T, files []*fdp, needM map[string]string, modulePrefix string) string {
 	var ps []string
 	if rapid.IntRange(0, 3).Draw(t, "api?") > 0 {
 		ps = append(ps, "default_api_level="+rapid.SampledFrom(gencode.APILevels).Draw(t, "api"))
@@ -573,8 +641,10 @@ func drawParams(t *rapid.T, files []*fdp, needM map[string]bool, modulePrefix st
 	}
 	for _, f := range files {
 		n := f.GetName()
-		switch {
-		case needM[n]:
+		switch v, need := needM[n]; {
+		case need && v != "":
+			ps = append(ps, "M"+n+"="+v)
+		case need:
 			ps = append(ps, "M"+n+"="+rapid.SampledFrom(importPathPool).Draw(t, "mpath"))
 		case rapid.IntRange(0, 7).Draw(t, "M?") == 7:
 			v := rapid.SampledFrom(importPathPool).Draw(t, "mpath")
@@ -600,7 +670,7 @@ func drawParams(t *rapid.T, files []*fdp, needM map[string]bool, modulePrefix st
 }
 
 func drawSchemaCase(t *rapid.T) genCase {
-	o := schema.Opts{WellKnown: true, MaxFiles: 4, Lazy: true, SourceInfo: true,
+	o := schema.Opts{WellKnown: true, MaxFiles: 4, Lazy: true, SourceInfo: rapid.Bool().Draw(t, "source-info"),
 		AdversarialNames: rapid.IntRange(0, 3).Draw(t, "adversarial") == 3}
 	files := schema.Draw(t, o)
 	// more public imports than the schema generator draws by itself (forwarding declarations)
@@ -617,14 +687,14 @@ func drawSchemaCase(t *rapid.T) genCase {
 		sort.Slice(f.PublicDependency, func(a, b int) bool { return f.PublicDependency[a] < f.PublicDependency[b] })
 	}
 	// Go packages: option go_package in several spellings, or left to an M parameter
-	needM := map[string]bool{}
+	needM := map[string]string{}
 	for i, f := range files {
 		if f.GetOptions().GetGoPackage() != "" {
 			continue
 		}
 		switch rapid.IntRange(0, 4).Draw(t, "gopkg") {
 		case 0:
-			needM[f.GetName()] = true
+			needM[f.GetName()] = ""
 		case 1: // own package, explicit name
 			setGoPackage(f, fmt.Sprintf("example.com/gen/q%d;q%dpb", i, i))
 		case 2: // own package, derived name
@@ -652,7 +722,7 @@ func drawSchemaCase(t *rapid.T) genCase {
 	if loadPool() == nil && rapid.Bool().Draw(t, "extra?") {
 		c.Extra = rapid.SliceOfNDistinct(rapid.SampledFrom(poolNames), 1, 2, rapid.ID[string]).Draw(t, "extra")
 	}
-	c.Sub = rapid.IntRange(0, 99).Draw(t, "sub") < subPercent()
+	c.Sub = drawSub(t)
 	return c
 }
 
@@ -663,11 +733,19 @@ func setGoPackage(f *fdp, v string) {
 	f.Options.GoPackage = proto.String(v)
 }
 
-func subPercent() int {
-	if pbt.Thorough() {
-		return 35
+// drawSub decides whether the case also goes through the plugin binary (3 process runs, ~0.1 s each).
+func drawSub(t *rapid.T) bool {
+	return rapid.SampledFrom([]bool{false, false, true}).Draw(t, "plugin-process")
+}
+
+// linkedImportPath is the M parameter for linked files that carry no go_package option (the
+// repository generates them with M flags too): one Go package per directory.
+func linkedImportPath(name string) string {
+	dir := "root"
+	if i := strings.LastIndex(name, "/"); i >= 0 {
+		dir = name[:i]
 	}
-	return 50
+	return "google.golang.org/protobuf/zgen/" + dir
 }
 
 func drawLinkedCase(t *rapid.T) genCase {
@@ -675,15 +753,25 @@ func drawLinkedCase(t *rapid.T) genCase {
 		t.Fatalf("harness: %v", err)
 	}
 	c := genCase{Source: "linked"}
-	c.Names = rapid.SliceOfNDistinct(rapid.SampledFrom(poolNames), 1, 4, rapid.ID[string]).Draw(t, "names")
+	maxNames := 2
+	if pbt.Thorough() {
+		maxNames = 4
+	}
+	c.Names = rapid.SliceOfNDistinct(rapid.SampledFrom(poolNames), 1, maxNames, rapid.ID[string]).Draw(t, "names")
 	cl := closure(c.Names)
-	c.Param = drawParams(t, cl, nil, "google.golang.org/protobuf")
+	needM := map[string]string{}
+	for _, f := range cl {
+		if f.GetOptions().GetGoPackage() == "" {
+			needM[f.GetName()] = linkedImportPath(f.GetName())
+		}
+	}
+	c.Param = drawParams(t, cl, needM, "google.golang.org/protobuf")
 	c.GenPerm = drawPrio(t, len(c.Names), "gen-perm")
 	c.Prio = drawPrio(t, len(cl), "file-prio")
 	if rapid.Bool().Draw(t, "extra?") {
 		c.Extra = rapid.SliceOfNDistinct(rapid.SampledFrom(poolNames), 1, 2, rapid.ID[string]).Draw(t, "extra")
 	}
-	c.Sub = rapid.IntRange(0, 99).Draw(t, "sub") < subPercent()
+	c.Sub = drawSub(t)
 	return c
 }
 
@@ -695,9 +783,31 @@ type caseInfo struct {
 	nontrivial bool
 }
 
-var infoCache sync.Map // request bytes hash is overkill: classification is recomputed, cheap enough
+var (
+	memoMu   sync.Mutex
+	memoKey  uint64
+	memoInfo caseInfo
+)
 
+// classify is called twice per case (classes, non-triviality); the second call hits the memo.
 func classify(c genCase) caseInfo {
+	h := fnv.New64a()
+	fmt.Fprintf(h, "%s|%q|%v|%q|%v|%v|%q|%v|", c.Source, c.Names, c.Gen, c.Param, c.GenPerm, c.Prio, c.Extra, c.Sub)
+	for _, r := range c.Raw {
+		h.Write(r)
+		h.Write([]byte{0})
+	}
+	memoMu.Lock()
+	defer memoMu.Unlock()
+	if memoKey == h.Sum64() && memoInfo.classes != nil {
+		return memoInfo
+	}
+	ci := classify1(c)
+	memoKey, memoInfo = h.Sum64(), ci
+	return ci
+}
+
+func classify1(c genCase) caseInfo {
 	var ci caseInfo
 	add := func(s string) { ci.classes = append(ci.classes, s) }
 	add("source:" + c.Source)
@@ -789,7 +899,10 @@ func classify(c genCase) caseInfo {
 	if err != nil {
 		return ci
 	}
-	o := runInProcess(rb)
+	o, ok := lastOutcome(rb)
+	if !ok {
+		o = runInProcess(rb)
+	}
 	switch {
 	case o.newErr != "":
 		add("outcome:Options.New-error")
@@ -819,7 +932,7 @@ func TestSchemaRequests(t *testing.T) {
 		Check:      checkGen,
 		NonTrivial: func(c genCase) bool { return classify(c).nontrivial },
 		Classes:    func(c genCase) []string { return classify(c).classes },
-		Quick:      220, Thorough: 2500,
+		Quick:      90, Thorough: 400,
 	})
 }
 
@@ -831,6 +944,6 @@ func TestLinkedRequests(t *testing.T) {
 		Check:      checkGen,
 		NonTrivial: func(c genCase) bool { return classify(c).nontrivial },
 		Classes:    func(c genCase) []string { return classify(c).classes },
-		Quick:      40, Thorough: 250,
+		Quick:      8, Thorough: 40,
 	})
 }
